@@ -22,7 +22,7 @@ def doc(body, prolog="", decl='<?xml version="1.0"?>'):
 
 
 def inp(name, xsl, xml, f=None, sorted_xml=None, sparam=("ps", "sv"), nparam=("pn", "2.5"), extra=None, ctl=()):
-    """ctl: the control experiments this input carries (see Trace_C05.tla): "nsaxis" -> in_xmlnsxml.xml, "dtd" -> in_nodtd.xml"""
+    """ctl: the control experiments this input carries (see Trace_C05.tla): "nsaxis" -> in_xmlnsxml.xml"""
     files = {"main.xsl": xsl, "in.xml": xml}
     if sorted_xml is not None:
         files["in_sorted.xml"] = sorted_xml
@@ -133,7 +133,7 @@ def handmade():
     L.append(inp("dtd-id-default-attrs", ss('<xsl:template match="/"><out a2="{name(id(\'a2\'))}" b3="{id(\'b3\')}" many="{count(id(\'a1 b1 nope\'))}"><xsl:for-each select="//a"><a d="{@dflt}" n="{count(@*)}"/></xsl:for-each></out></xsl:template>'),
                  doc('<r><a id="a1"><b id="b1">1</b></a><a dflt="own" id="a2"><b id="b3">3</b></a></r>', prolog=DTD)))
     L.append(inp("dtd-doctype-node", ss('<xsl:template match="/"><out top="{count(/node())}" before="{count(/*/preceding-sibling::node())}" name="{name(/node()[last() - 1])}"/></xsl:template>'),
-                 doc('<r><a id="a1"/></r>', prolog=DTD), ctl=["dtd"], extra={"in_nodtd.xml": doc('<r><a id="a1"/></r>')}))
+                 doc('<r><a id="a1"/></r>', prolog=DTD)))
     # ---- attribute values with escapes; characters needing escapes in the output
     L.append(inp("attr-escapes", ss('<xsl:template match="/"><out><xsl:for-each select="//e/@*"><a n="{name()}" l="{string-length()}" v="{.}"/></xsl:for-each><t><xsl:value-of select="//t"/></t></out></xsl:template>'),
                  doc('<r><e a="x&#10;y&#9;z" b="&quot;q&quot; &amp; &lt;" c="  two  spaces  "/><t>line1&#13;line2\ttab &#160;nbsp</t></r>')))
@@ -196,8 +196,6 @@ def generated(rng, n):
         ctl = []
         if not in_order and files["in.xml"] != render_doc(st, dtd):
             files["in_sorted.xml"] = render_doc(st, dtd)
-        if dtd:
-            files["in_nodtd.xml"] = render_doc(st, False); ctl.append("dtd")
         out.append({"name": "gen%d" % k, "kind": "gen", "files": files, "feat": f, "sparam": ["ps", "s%d" % k], "nparam": ["pn", str(k % 7 + 0.5)], "ctl": ctl})
     return out
 
